@@ -120,6 +120,34 @@ def observe(L, cif, b, name, want, tag):
     if not seen or any(s != want for s in seen):
         bad = [s for s in seen if s != want]
         raise Mismatch('readback:iterator:%s:%s' % (tag, want[0]), 'packet iteration: %s' % (D.first_difference(bad[0], want, 'value') if bad else 'item not delivered'))
+    # 2b. packet iteration into packets the caller made: empty, holding another name only, or holding this item
+    # already (with some other value) - in each the delivered item must be retrievable under its name
+    for style in ('empty', 'other', 'same'):
+        rc, lh = L.get_item_loop(b, name)
+        if rc != CIF_OK:
+            raise Mismatch('model:cif_container_get_item_loop:0:%d:%s' % (rc, tag), 'get_item_loop -> %d' % rc)
+        seen = []
+        try:
+            rc, it = L.loop_get_packets(lh)
+            if rc != CIF_OK:
+                raise Mismatch('model:cif_loop_get_packets:0:%d:%s' % (rc, tag), 'get_packets -> %d' % rc)
+            rc, mine = L.packet_create(None if style == 'empty' else ['_it.caller'] if style == 'other' else [name.upper()])
+            try:
+                while True:
+                    rc, _ = L.it_next(it, 'reuse', mine)
+                    if rc != CIF_OK:
+                        break
+                    rc2, pv = L.packet_get(mine, name)
+                    seen.append(numbers_of(L, pv) if rc2 == CIF_OK else ('missing', rc2))
+            finally:
+                L.it_abort(it)
+                L.packet_free(mine)
+        finally:
+            L.loop_free(lh)
+        if not seen or any(s != want for s in seen):
+            bad = [s for s in seen if s != want]
+            raise Mismatch('readback:iterator-caller-packet-%s:%s:%s' % (style, tag, want[0]), 'packet iteration into a caller packet (%s): %s'
+                           % (style, ('item not retrievable (%r)' % (bad[0],) if bad and bad[0][0] == 'missing' else D.first_difference(bad[0], want, 'value')) if bad else 'item not delivered'))
     # 3. walk
     rc, rec = walker.walk(L, cif)
     if rc != CIF_OK:
